@@ -27,7 +27,9 @@
  *         c<slot>                     client abort (connection reset)
  *         t<dt>[.<script>]            clock += dt, then the trigger
  *   script = groups joined by ',':  c=<connect> k=<socket> s=<so_error>
- *            w=<write> r=<read> v=<create_env>, one letter per call:
+ *            w=<write> r=<read> v=<create_env>, one letter per call; on arrivals also u=c (HTTP/2
+ *            extended CONNECT: refused 405 by gw_upgrade_policy() after host choice, result AR) or
+ *            u=h (HTTP/1.1 Upgrade header: stripped, the request goes on):
  *     connect k ok | p EINPROGRESS | i EINTR | a EAGAIN | r ECONNREFUSED | n ENOENT
  *     socket  y ok | n EMFILE          so_error y 0 | r ECONNREFUSED | t ETIMEDOUT
  *     write   a all | o one byte | n nothing | e EPIPE
@@ -67,7 +69,7 @@
 #include "gw_backend.h"
 
 /* ---- scripted environment ------------------------------------------------ */
-static const char *q_conn, *q_sock, *q_stat, *q_wr, *q_rd, *q_env;
+static const char *q_conn, *q_sock, *q_stat, *q_wr, *q_rd, *q_env, *q_upg;
 
 static int q_pop(const char **q, int dflt) {
     if (NULL == *q || 0 == **q) return dflt;
@@ -225,7 +227,7 @@ static gw_plugin_config *gwconf;
 static connection *sentinel;
 
 static void script_set(char *s) {
-    q_conn = q_sock = q_stat = q_wr = q_rd = q_env = NULL;
+    q_conn = q_sock = q_stat = q_wr = q_rd = q_env = q_upg = NULL;
     if (NULL == s) return;
     char *save = NULL;
     for (char *g = strtok_r(s, ",", &save); g; g = strtok_r(NULL, ",", &save)) {
@@ -237,6 +239,7 @@ static void script_set(char *s) {
           case 'w': q_wr   = g + 2; break;
           case 'r': q_rd   = g + 2; break;
           case 'v': q_env  = g + 2; break;
+          case 'u': q_upg  = g + 2; break;
           default: break;
         }
     }
@@ -531,9 +534,19 @@ int main(void) {
                 if (active[s]) { res_add("busy"); break; }
                 slot_init(s, key);
                 request_st * const r = &rq[s];
+                /* what the request asks of gw_upgrade_policy() (no host here enables upgrade) */
+                if (q_upg && *q_upg == 'c') r->h2_connect_ext = 1;      /* HTTP/2 extended CONNECT */
+                else if (q_upg && *q_upg == 'h') {                      /* HTTP/1.1 Upgrade header */
+                    r->http_version = HTTP_VERSION_1_1;
+                    light_bset(r->rqst_htags, HTTP_HEADER_UPGRADE);
+                }
                 handler_t rc = gw_check_extension(r, &pd, 1, 0);
+                array_free_data(&r->rqst_headers);
+                memset(&r->rqst_headers, 0, sizeof(r->rqst_headers));
+                r->h2_connect_ext = 0;
                 if (NULL == r->handler_module) {
-                    res_add("A-,%d=fin%d,", s, r->http_status);
+                    /* AR = refused by the upgrade policy after a host had been chosen */
+                    res_add("%s,%d=fin%d,", 405 == r->http_status ? "AR" : "A-", s, r->http_status);
                     (void)rc;
                     break;
                 }
